@@ -119,6 +119,7 @@ HIST_PROPS = {
 }
 
 KIND_HEAVY = {"C05", "C07", "C08", "C09"}
+ELEMENT_PROPS = {"C03", "C04", "C06", "C07", "C08"}
 
 
 # ---------------------------------------------------------------------------------------------- manifest tables
@@ -163,12 +164,52 @@ def tier_limits(tier):
     return {"max-cap": 24, "max-span": 16, "max-fixed": 9, "max-steps": 120}
 
 
+def hist_family(rng, count):
+    """Sampled VaryingSize / mixed lists of non-trivially-relocatable types with odd sizes and alignments: elements whose
+    size is not a multiple of the element alignment (the element-wise relocation paths depend on it)."""
+    out, seen, guard = [], set(), 0
+    nt = ["Tr4", "Tr8", "Tr24", "str", "uptr", "TrMv8", "Tr4", "Tr8"]
+    small = ["u8", "u16", "u32", "B3", "char", "bool"]
+    aligns = [0, 0, 2, 4, 8, 16, 32]
+    while len(out) < count and guard < count * 50:
+        guard += 1
+        fields = []
+        if rng.random() < 0.7:
+            fields.append(("P", rng.choice(nt + small), rng.choice(aligns)))
+        for _ in range(rng.randint(1, 2)):
+            fields.append(("C", rng.choice(["u8", "u16", "u32", "u64"]), rng.choice([0, 0, 2, 8])))
+            fields.append(("V", rng.choice(nt if rng.random() < 0.7 else small), rng.choice(aligns)))
+            if rng.random() < 0.6:
+                fields.append((rng.choice("PF"), rng.choice(nt + small), rng.choice(aligns)))
+        if len(fields) > 6 or not any(t in vf.NONTRIVIAL for _, t, _ in fields):
+            continue
+        fields = first_gets_max_alignment(rng, fields)
+        s = ",".join("%s:%s%s" % (k, t, "@%d" % a if a else "") for k, t, a in fields)
+        if s not in seen:
+            seen.add(s)
+            out.append(s)
+    return out
+
+
+def first_gets_max_alignment(rng, fields):
+    """In half of the sampled lists the first parameter carries the largest alignment of the list: the library then relies
+    on the element start alone for its alignment (no run-time adjustment), which is where a misplaced element shows."""
+    mx = max(a for _, _, a in fields)
+    if mx > 1 and rng.random() < 0.5:
+        k, t, _ = fields[0]
+        fields = [(k, t, mx)] + list(fields[1:])
+    return fields
+
+
 def hist_units(prop, tier, seed):
     profile = HIST_PROPS[prop][0]
     known = vf.load_known()
     avoid = ",".join(vf.avoid_tokens(known))
     units = []
     configs = list(HIST_CONFIGS)
+    frng = random.Random(seed * 32452843 + 3)
+    fam_kinds = ["s000", "s010", "std", "s111", "s100", "s001"]
+    configs += [(c, [fam_kinds[i % len(fam_kinds)]]) for i, c in enumerate(hist_family(frng, 8 if tier == "quick" else 32))]
     if tier == "thorough":
         configs += sampled_configs(seed, 24)
     cases = 600 if tier == "quick" else 4000
@@ -214,6 +255,12 @@ def run_hist_check(prop, tier):
     units = hist_units(prop, tier, vf.SEED)
     if prop in ("C02", "C03", "C04", "C05", "C10"):
         units += layout_units(prop, tier, vf.SEED)
+    if prop in ELEMENT_PROPS:
+        # these properties speak about standalone ContiguousElements as well
+        eu = elem_units(tier, vf.SEED)
+        for u in eu:
+            u.args["focus"] = prop
+        units += eu
     errs = vf.run_units(units)
     return vf.conclude(prop, tier, "exploration", units, errs, HIST_PROPS[prop][1], t0,
                        assumptions=["generated histories respect the documented preconditions (size() < capacity(), payload within the byte budget, count == range length)",
@@ -532,7 +579,7 @@ def race_units(tier, seed):
         cases = int(os.environ["VERIF_CASES"])
     for cfg in configs:
         for fl in ["tsan", "ctsan"]:
-            units.append(Unit("race", cfg, "std", fl, {"seed": seed, "threads": threads, "rounds": rounds}, cases, batch=2 if tier == "quick" else 5))
+            units.append(Unit("race", cfg, "std", fl, {"seed": seed, "threads": threads, "rounds": rounds}, cases, batch=2 if tier == "quick" else 5, extra_defs=("VF_NO_LIBCALL 1",)))
     return units
 
 
@@ -580,6 +627,7 @@ def layout_family(rng, count):
                 fields.append(("P", rng.choice(LAYOUT_TYPES), rng.choice(aligns)))
         if len(fields) > 7:
             continue
+        fields = first_gets_max_alignment(rng, fields)
         s = ",".join("%s:%s%s" % (k, t, "@%d" % a if a else "") for k, t, a in fields)
         if s in seen:
             continue
@@ -636,7 +684,7 @@ def units_for(prop, tier, seed):
     if prop == "LAYOUT":
         return layout_units("C02", tier, seed)
     if prop in HIST_PROPS:
-        return hist_units(prop, tier, seed) + (layout_units(prop, tier, seed) if prop in ("C02", "C03", "C04", "C05", "C10") else [])
+        return hist_units(prop, tier, seed) + (layout_units(prop, tier, seed) if prop in ("C02", "C03", "C04", "C05", "C10") else []) + (elem_units(tier, seed) if prop in ELEMENT_PROPS else [])
     if prop in ("C13", "C14"):
         return cmp_units(prop, tier, seed)
     if prop == "C11":
